@@ -722,6 +722,17 @@ func NTTConjugateInvariant(p1, p2 []uint64, N int, Q, MRedConstant uint64, BRedC
 // NTTConjugateInvariantLazy evaluates p2 = NTT(p1) in the sub-ring Z[X + X^-1]/(X^2N +1) of Z[X]/(X^2N+1) with p2 in the range [0, 6*modulus-2].
 func NTTConjugateInvariantLazy(p1, p2 []uint64, N int, Q, MRedConstant uint64, roots []uint64) {
 	nttCoreConjugateInvariantLazy(p1, p2, N, Q, MRedConstant, roots)
+
+	// The unrolled kernel reduces every second layer only and has log2(N) of them after the first one:
+	// when log2(N) is odd its last layer is not a reducing one and the values are in [0, 8*modulus-2].
+	if N >= MinimumRingDegreeForLoopUnrolledNTT && bits.Len64(uint64(N-1))&1 == 1 {
+		fourQ := Q << 2
+		for i := range p2[:N] {
+			if p2[i] >= fourQ {
+				p2[i] -= fourQ
+			}
+		}
+	}
 }
 
 // INTTConjugateInvariant evaluates p2 = INTT(p1) in the closed sub-ring Z[X + X^-1]/(X^2N +1) of Z[X]/(X^2N+1).
